@@ -103,10 +103,12 @@ pub fn run(tier: Tier) -> Report {
         let ellps = &ellipsoids[ei];
         let Some(ell) = ref_ellipsoid(ellps) else { return };
         let (def, ell) = if p.op == "webmerc" {
-            if ei > 0 {
-                return;
+            // the default is WGS84; with ellps given, the sphere has that ellipsoid's semi-major axis
+            if ei == 0 {
+                (p.def.clone(), ref_ellipsoid("WGS84").unwrap())
+            } else {
+                (p.with_ellps(ellps), ell)
             }
-            (p.def.clone(), ref_ellipsoid("WGS84").unwrap())
         } else {
             (p.with_ellps(ellps), ell)
         };
